@@ -245,6 +245,7 @@ def tool_phase(ev, rep, work, tier):
 def run(tier):
     ev = Evidence(PID, tier, "model_checking")
     rep = Reporter(PID, ev)
+    bpbind.JUDGE = {"determinism"}          # a check raises alarms for its own property only
     work = scratch("c02")
     if not model_phase(ev, work, tier, DEVS):
         ev.write()
